@@ -81,7 +81,7 @@ def case_record(c):
     hd, exp_user = user_cards(c['n_user'], c.get('kind_off', 0))
     dio = c['directio']
     if dio != 'absent':
-        hd['DIRECTIO'] = {'0': 0, '1': 1, 's1': '1', 's0': '0', 'sx': 'abc'}[dio]      # 'abc': not a number -- the library falls back to 0
+        hd['DIRECTIO'] = {'0': 0, '1': 1, 's1': '1', 's0': '0', 'sx': 'abc', 'f1': 1.0, 'f0': 0.0}[dio]      # 'abc': not a number -- the library falls back to 0
     start_pkt = 0
     if c.get('user_pktidx') is not None:
         hd['PKTIDX'] = c['user_pktidx']
@@ -540,6 +540,10 @@ def run(ctx):
         if n_user in (0, 7):
             cases.append(dict(box='A', n_user=n_user, kind_off=0, directio='1', template=False, source='ant', num_blocks=3, bpf=2,
                               bits=8, perms=False, glob_stem=True))
+        # DIRECTIO given as a float (1.0 / 0.0): the same setting as the integer
+        for dio_f in ('f1', 'f0'):
+            cases.append(dict(box='A', n_user=n_user, kind_off=0, directio=dio_f, template=False, source='ant', num_blocks=3, bpf=2,
+                              bits=8, perms=False))
         # a DIRECTIO card that is not a number (the library announces that it falls back to 0)
         cases.append(dict(box='A', n_user=n_user, kind_off=0, directio='sx', template=False, source='ant', num_blocks=3, bpf=2,
                           bits=8, perms=False))
